@@ -141,6 +141,11 @@ pub fn record_c17(a: &Args) -> usize {
             *ctl_port.pump.borrow_mut() = Some(Box::new(move || w.pump()));
         }
         let sbus = Rc::new(RefCell::new(SerialSignBus::try_new(ctl_port).expect("serial bus")));
+        // ports that take only a few bytes per write call, on either side of the wire (legal short writes change nothing)
+        let caps: [(Option<usize>, Option<usize>); 5] = [(None, None), (Some(32), None), (None, Some(7)), (Some(1), Some(1)), (Some(46), Some(14))];
+        let (ccap, ocap) = caps[(sc / 2 + sc) % 5];
+        ctl_st.borrow_mut().write_cap = ccap;
+        odk_st.borrow_mut().write_cap = ocap;
         out.emit(json!({"e": "twinstart", "me": me, "signs": desc.iter().map(|(a, f)| json!({"addr": a, "flip": flip_name(*f)})).collect::<Vec<_>>()}));
 
         let flush = |out: &mut TraceOut| {
@@ -217,6 +222,13 @@ pub fn record_c17(a: &Args) -> usize {
                     Frame::new(Address(me), MsgType(2), Data::try_new(vec![0x00]).unwrap()).to_bytes_with_newline(),
                     b"\n".to_vec(),
                     Frame::from(Message::Hello(Address(me.wrapping_add(99)))).to_bytes_with_newline(),
+                    // frame-shaped lines whose "digits" are not ASCII (Arabic-Indic, full-width, Devanagari), lower-case hex, NUL
+                    ":\u{0660}\u{0661}000302FFFB\r\n".as_bytes().to_vec(),
+                    ":01\u{FF10}\u{FF10}0302FFFB\r\n".as_bytes().to_vec(),
+                    ":0100030\u{0968}FFFB\r\n".as_bytes().to_vec(),
+                    ":\u{FF21}1000302FFFB\r\n".as_bytes().to_vec(),
+                    b":01000302fffb\r\n".to_vec(),
+                    b":0100\x000302FFFB\r\n".to_vec(),
                 ];
                 for line in inject {
                     odk_st.borrow_mut().rx.extend(line);
